@@ -106,3 +106,60 @@ fn keepalive_packet_telemetry() {
     assert!(c.last_sent == Some(now));
     assert!(srtla_core::verif_hooks::get_private(&c).last_keepalive_sent == Some(now));
 }
+
+// ---------------------------------------------------------------------------------------------------------------
+// Bounded cross-checks of the whole selector on the compiled code (structure-independent: they do not depend on how the
+// source is written, so a restructured gate / selector that escapes the Verus extraction is still searched for
+// counterexamples).  bounded: exactly 2 links, classic mode.  Never counted as proved.
+use srtla_core::config_snapshot::ConfigSnapshot;
+use srtla_core::mode::SchedulingMode;
+use srtla_core::selection::select_connection_idx;
+use srtla_core::verif_hooks as vh;
+
+fn usable(c: &srtla_core::connection::SrtlaConnection, now: u64) -> bool {
+    c.connected && c.is_schedulable() && !c.is_timed_out(now)
+}
+
+#[kani::proof]
+#[kani::unwind(3)]
+fn sel_classic_n2_no_blackout_eligible_frame() {
+    let mut conns = [any_conn(), any_conn()];
+    let now: u64 = kani::any();
+    kani::assume(now > 0 && now < CLOCK_MAX);
+    for c in conns.iter() {
+        kani::assume(c.window >= 0);
+        let p = vh::get_private(c);
+        kani::assume(p.stall_gate_events < u64::MAX / 2 && p.silence_pulls < u64::MAX / 2);
+        kani::assume(p.stall_latched_since_ms != 0 || p.stall_recovery_since_ms == 0);
+    }
+    let cfg = ConfigSnapshot { mode: SchedulingMode::Classic, quality_enabled: kani::any(), stall_deselect: kani::any(),
+                               stall_min_in_flight: kani::any(), stall_ack_stale_ms: kani::any(), conn_timeout_ms: kani::any() };
+    let before = [(conns[0].connected, conns[0].window, conns[0].in_flight_packets, conns[0].last_received, conns[0].last_sent),
+                  (conns[1].connected, conns[1].window, conns[1].in_flight_packets, conns[1].last_received, conns[1].last_sent)];
+    let last: Option<usize> = kani::any();
+    let r = select_connection_idx(&mut conns, last, now, &cfg);
+    // C03: a usable uplink always gets the packet
+    if usable(&conns[0], now) || usable(&conns[1], now) { assert!(r.is_some()); }
+    // C04: the chosen uplink is registered, not timed out, not stall-gated
+    if let Some(i) = r {
+        assert!(i < 2);
+        assert!(conns[i].is_schedulable() && !conns[i].is_timed_out(now) && !conns[i].is_stall_gated());
+    }
+    // C12: a decision never changes liveness / accounting state; guard off clears every flag
+    for k in 0..2 {
+        assert!((conns[k].connected, conns[k].window, conns[k].in_flight_packets, conns[k].last_received, conns[k].last_sent) == before[k]);
+        if !cfg.stall_deselect {
+            let p = vh::get_private(&conns[k]);
+            assert!(!p.stall_gated && !p.silence_pulled && p.stall_latched_since_ms == 0 && p.stall_recovery_since_ms == 0);
+        }
+    }
+    // C10: classic + guard off = largest window / (in-flight + queued + 1), first maximum wins
+    if !cfg.stall_deselect {
+        if let Some(i) = r {
+            let s0 = conns[0].get_score(); let s1 = conns[1].get_score();
+            let e0 = conns[0].is_schedulable() && !conns[0].is_timed_out(now);
+            let e1 = conns[1].is_schedulable() && !conns[1].is_timed_out(now);
+            if i == 0 { assert!(e0 && (!e1 || s0 >= s1)); } else { assert!(e1 && (!e0 || s1 > s0)); }
+        }
+    }
+}
